@@ -299,4 +299,9 @@ def run(tier):
     ck.cov['exhaustive'] = tier == 'thorough'
     ck.assumptions += ['compile-time settings are not in the pool (they are the subject of C09 / KF-C09-1)',
                        'free-running threads are exploration: absence of divergence is not a proof']
+    # history independence over a pool of public-API calls: every response must be the one the call gets alone in a fresh interpreter
+    from .. import historypool as _hp
+    _hp.check_pool(ck, _hp.pool_c10(), 'constants, names, model building', spec='ApiHistory!HistoryIndependent', orders=2 if tier == 'quick' else 6)
+    _hp.check_pool(ck, _hp.pool_c15(), 'compile decisions under settings', spec='ApiHistory!HistoryIndependent', orders=2 if tier == 'quick' else 6)
+    _hp.check_pool(ck, _hp.pool_c09(), 'lexical settings given to one call', spec='ApiHistory!HistoryIndependent', orders=2 if tier == 'quick' else 6)
     return ck.finish()
